@@ -1,0 +1,12 @@
+//go:build !verif
+
+// Package verifhook provides named interleaving and crash points for the
+// external deterministic-simulation harness.
+//
+// Without the "verif" build tag every function in this package is an empty,
+// inlinable no-op, so the shipped behaviour is unchanged.
+package verifhook
+
+// At marks a named point between two durable writes or at an interleaving
+// point. It does nothing unless built with the "verif" tag.
+func At(string) {}
